@@ -82,12 +82,21 @@ def groups(tier, seed):
         for mode in ('', 'dfs', 'bfs'):
             for rd in ('sorted', 'rev'):
                 yield {'kind': 'location', 'root': root, 'mode': mode, 'rd': rd}
+    # the location columns under root options that make the walk resolve real paths itself (no ignore file exists: the rows are the same)
+    for root in ('dot', 'rel', 'abs'):
+        for mode in ('dfs dockerignore', 'dockerignore', 'dfs hgignore', 'hgignore bfs', 'dfs gitignore', 'gitignore', 'symlinks dfs', 'dfs archives'):
+            for rd in ('sorted', 'rev'):
+                yield {'kind': 'location', 'root': root, 'mode': mode, 'rd': rd}
     for cls in ('is_archive', 'is_audio', 'is_book', 'is_doc', 'is_font', 'is_image', 'is_source', 'is_video'):
         yield {'kind': 'extclass', 'cls': cls, 'override': False}
         yield {'kind': 'extclass', 'cls': cls, 'override': True}
         yield {'kind': 'extclass', 'cls': cls, 'override': 'flag'}      # the override file is named by --config (its path has capitals and a blank)
     for k in content_lengths(tier):
         yield {'kind': 'content', 'length': k}
+    # contains() of one file must not depend on the file searched before it: a file that holds the start of the string at the end of a
+    # block (and the whole string later) is followed by a file that begins with the rest of the string
+    for bound in (4096, 8192, 32768, 65536, 131072, 1048576):
+        yield {'kind': 'contains-history', 'bound': bound}
     # a value must not depend on the WHERE clause that let the row through, nor on the rows seen before it
     for ri in range(len(UF_ROOTS)):
         for mode in ('', 'dfs'):
@@ -570,6 +579,23 @@ def eval_group(env, group, tier):
                     else:
                         r.update(status='ok', sig=('uf', len(want)))
                     outs.append(r)
+        elif kind == 'contains-history':
+            bound, needle = group['bound'], b'NEEDLE'
+            tree, roots, exp = {}, [], {}
+            for k in range(1, len(needle)):
+                for later in (True, False):
+                    big = b'a' * (bound - k) + needle[:k] + b'b' * 50 + (needle if later else b'') + b'c' * 10
+                    nxt = needle[k:] + b'd' * 20
+                    tag = '%d%s' % (k, 'y' if later else 'n')
+                    tree['b' + tag] = D({'big' + tag: F(data=big)})
+                    tree['n' + tag] = D({'next' + tag: F(data=nxt)})
+                    roots += ['b' + tag, 'n' + tag]
+                    exp['big' + tag] = (b(later),)
+                    exp['next' + tag] = ('false',)
+            core.materialise(root, tree)
+            for frm in (', '.join(roots), ', '.join(r_ + ' dfs' for r_ in roots), ', '.join(reversed(roots))):
+                rows = query_rows(env, root, ["contains('NEEDLE')"], frm=frm)
+                row_outcomes(dict(group, order=frm[:12]), rows, exp, ['contains'], outs, 'contains-history')
         elif kind == 'content':
             k = group['length']
             needle = 'NEEDLE'
